@@ -161,8 +161,8 @@ package cdata
 //@   requires forall(j1, 0, iprod(vals.shape, vals.rank), forall(j2, 0, iprod(vals.shape, vals.rank), implies(j1 != j2, nd.Start + idot(loc, nd.OffsetStep, len(loc)) + sladdr(vals.shape, nd.OffsetStep, step, ite(step == nil, 1, 0), j1, vals.rank, vals.rank) != nd.Start + idot(loc, nd.OffsetStep, len(loc)) + sladdr(vals.shape, nd.OffsetStep, step, ite(step == nil, 1, 0), j2, vals.rank, vals.rank))))
 //@   assigns nd.Impl[*]
 //@   ensures [C03.applyslice-footprint,C01.applyslice-footprint] forall(j, 0, iprod(vals.shape, vals.rank), nd.Impl[old(nd.Start + idot(loc, nd.OffsetStep, len(loc))) + sladdr(vals.shape, nd.OffsetStep, step, ite(step == nil, 1, 0), j, vals.rank, vals.rank)] == vals.at(j))
-//@   loop 0 prestep [C03.applyslice-step-value] nd.Impl[old(nd.Start + idot(loc, nd.OffsetStep, len(loc))) + sladdr(vals.shape, nd.OffsetStep, step, ite(step == nil, 1, 0), pre(pos), vals.rank, vals.rank)] == vals.at(pre(pos))
-//@   loop 0 prestep [C03.applyslice-step-frame] forall(p, 0, nd.Impl.buflen, implies(p != old(nd.Start + idot(loc, nd.OffsetStep, len(loc))) + sladdr(vals.shape, nd.OffsetStep, step, ite(step == nil, 1, 0), pre(pos), vals.rank, vals.rank), nd.Impl[p] == pre(nd.Impl[p])))
+//@   loop 0 prestep [C03.applyslice-step-value,C01.applyslice-step-value] nd.Impl[old(nd.Start + idot(loc, nd.OffsetStep, len(loc))) + sladdr(vals.shape, nd.OffsetStep, step, ite(step == nil, 1, 0), pre(pos), vals.rank, vals.rank)] == vals.at(pre(pos))
+//@   loop 0 prestep [C03.applyslice-step-frame,C01.applyslice-step-frame] forall(p, 0, nd.Impl.buflen, implies(p != old(nd.Start + idot(loc, nd.OffsetStep, len(loc))) + sladdr(vals.shape, nd.OffsetStep, step, ite(step == nil, 1, 0), pre(pos), vals.rank, vals.rank), nd.Impl[p] == pre(nd.Impl[p])))
 //@   loop 0 invariant 0 <= pos && pos <= size && size == iprod(vals.shape, vals.rank) && len(idx) == vals.rank && len(shape) == vals.rank
 //@   loop 0 invariant forall(k, 0, vals.rank, shape[k] == vals.shape[k] && idx[k] == rmc(vals.shape, pos, vals.rank, k))
 //@   loop 0 invariant as(slice, nd{t}C).Start == old(nd.Start + idot(loc, nd.OffsetStep, len(loc))) && len(as(slice, nd{t}C).OffsetStep) == vals.rank && as(slice, nd{t}C).Impl == nd.Impl
@@ -262,7 +262,7 @@ package cdata
 //@   assigns nothing
 //@   ensures [C03.maximum-bound,C02.maximum-bound] forall(j, 0, iprod(nd.Dims, len(nd.Dims)), nd.Impl[nd.Start + rmaddr(nd.Dims, nd.OffsetStep, j, len(nd.Dims), len(nd.Dims))] <= r)
 //@   ensures [C03.maximum-attained,C02.maximum-attained] exists(j, 0, iprod(nd.Dims, len(nd.Dims)), nd.Impl[nd.Start + rmaddr(nd.Dims, nd.OffsetStep, j, len(nd.Dims), len(nd.Dims))] == r)
-//@   loop 0 prestep [C02.maximum-step] post(res) == pre(res) || post(res) == nd.Impl[nd.Start + rmaddr(nd.Dims, nd.OffsetStep, pre(pos), len(nd.Dims), len(nd.Dims))]
+//@   loop 0 prestep [C02.maximum-step,C03.maximum-step] post(res) == pre(res) || post(res) == nd.Impl[nd.Start + rmaddr(nd.Dims, nd.OffsetStep, pre(pos), len(nd.Dims), len(nd.Dims))]
 //@   loop 0 invariant 0 <= pos && pos <= size && size == iprod(nd.Dims, len(nd.Dims)) && size >= 1 && len(idx) == len(nd.Dims) && shape == nd.Dims
 //@   loop 0 invariant forall(k, 0, len(nd.Dims), idx[k] == rmc(nd.Dims, pos, len(nd.Dims), k))
 //@   loop 0 invariant forall(j, 0, pos, nd.Impl[nd.Start + rmaddr(nd.Dims, nd.OffsetStep, j, len(nd.Dims), len(nd.Dims))] <= res) && nd.Impl[nd.Start + rmaddr(nd.Dims, nd.OffsetStep, 0, len(nd.Dims), len(nd.Dims))] <= res
@@ -285,7 +285,7 @@ package cdata
 //@   assigns nothing
 //@   ensures [C03.minimum-bound,C02.minimum-bound] forall(j, 0, iprod(nd.Dims, len(nd.Dims)), nd.Impl[nd.Start + rmaddr(nd.Dims, nd.OffsetStep, j, len(nd.Dims), len(nd.Dims))] >= r)
 //@   ensures [C03.minimum-attained,C02.minimum-attained] exists(j, 0, iprod(nd.Dims, len(nd.Dims)), nd.Impl[nd.Start + rmaddr(nd.Dims, nd.OffsetStep, j, len(nd.Dims), len(nd.Dims))] == r)
-//@   loop 0 prestep [C02.minimum-step] post(res) == pre(res) || post(res) == nd.Impl[nd.Start + rmaddr(nd.Dims, nd.OffsetStep, pre(pos), len(nd.Dims), len(nd.Dims))]
+//@   loop 0 prestep [C02.minimum-step,C03.minimum-step] post(res) == pre(res) || post(res) == nd.Impl[nd.Start + rmaddr(nd.Dims, nd.OffsetStep, pre(pos), len(nd.Dims), len(nd.Dims))]
 //@   loop 0 invariant 0 <= pos && pos <= size && size == iprod(nd.Dims, len(nd.Dims)) && size >= 1 && len(idx) == len(nd.Dims) && shape == nd.Dims
 //@   loop 0 invariant forall(k, 0, len(nd.Dims), idx[k] == rmc(nd.Dims, pos, len(nd.Dims), k))
 //@   loop 0 invariant forall(j, 0, pos, nd.Impl[nd.Start + rmaddr(nd.Dims, nd.OffsetStep, j, len(nd.Dims), len(nd.Dims))] >= res) && nd.Impl[nd.Start + rmaddr(nd.Dims, nd.OffsetStep, 0, len(nd.Dims), len(nd.Dims))] >= res
